@@ -127,6 +127,15 @@ func (e *Eval) Prepare(flags ...[]byte) error {
 	}
 
 	//
+	// Start from a clean slate, in case we're invoked more than
+	// once: otherwise the new program would be appended to the
+	// bytecode, constants, and functions of the previous one.
+	//
+	e.instructions = code.Instructions{}
+	e.constants = []object.Object{}
+	e.functions = make(map[string]environment.UserFunction)
+
+	//
 	// Compile the program to bytecode
 	//
 	err = e.compile(program)
